@@ -161,6 +161,65 @@ func runC15(c *Ctx) {
 		srt := CallsIn(seal, "(*blockchain.BlockAssets).Sort")
 		root := CallsIn(seal, "(blockchain.BlockAssets).GetRoot")
 		c.Require("C15.R3 seal", FuncKey(seal)+": assets sorted", p.Pos(seal.Pos()), "assets are sorted before their root is taken", len(srt) == 1 && len(root) == 1 && instrDominates(srt[0].Call, root[0].Call), "")
+		// … and the root signed in the header is taken over the very list the block carries, in the
+		// order it carries it: the list sorted, the list hashed and the list stored in Block.Assets are
+		// one value (a sorted copy in the body with the root of the original fails every validator)
+		{
+			listOf := func(v ssa.Value) ssa.Value {
+				for {
+					switch x := v.(type) {
+					case *ssa.ChangeType:
+						v = x.X
+						continue
+					case *ssa.Convert:
+						v = x.X
+						continue
+					case *ssa.MakeInterface:
+						v = x.X
+						continue
+					case *ssa.UnOp:
+						// *addr of a local that holds the list (Sort has a pointer receiver)
+						if al, ok := x.X.(*ssa.Alloc); ok {
+							if sv := lastStoreInBlock(al, x); sv != nil {
+								v = sv
+								continue
+							}
+							for _, r := range *al.Referrers() {
+								if st, ok := r.(*ssa.Store); ok && st.Addr == ssa.Value(al) {
+									v = st.Val
+								}
+							}
+							if v != ssa.Value(x) {
+								continue
+							}
+						}
+					case *ssa.Alloc:
+						for _, r := range *x.Referrers() {
+							if st, ok := r.(*ssa.Store); ok && st.Addr == ssa.Value(x) {
+								v = st.Val
+							}
+						}
+						if v != ssa.Value(x) {
+							continue
+						}
+					}
+					return valueRoot(v)
+				}
+			}
+			var carried []ssa.Value
+			for _, st := range storesToField(seal, "blockchain.Block", "Assets") {
+				carried = append(carried, listOf(st.Val))
+			}
+			ok := len(carried) == 1 && len(root) == 1 && len(srt) == 1
+			det := ""
+			if ok {
+				hashed := listOf(root[0].Call.Common().Args[0])
+				sorted := listOf(srt[0].Call.Common().Args[0])
+				ok = hashed == carried[0] && sorted == carried[0]
+				det = fmt.Sprintf("sorted %s / hashed %s / carried %s", sorted.Name(), hashed.Name(), carried[0].Name())
+			}
+			c.Require("C15.R3 seal", FuncKey(seal)+": asset root covers the carried list", p.Pos(seal.Pos()), "the list sorted, the list whose root is signed and the list stored in Block.Assets are the same value", ok, det)
+		}
 	}
 
 	// ---- R4 executer mirror
